@@ -244,6 +244,33 @@ Casts(c, orc, a, b) ==
        THEN "AcceleratorOperandsInL1"
   ELSE "ok"
 
+(* ---- C10: the IR the compiler generates from a layout (bounds, steps, subview pointers) means the same as the layout ---- *)
+(* the observation is the operand list of the single "test.op" of the function.
+   subviewptr: pointer of a subview of a TSL buffer = base + (offset-free address of the subview's first element) * element size
+   boundstep : operands = all bounds in (dim, level) order followed by all steps: static entries are kept (steps in bytes when asked),
+               the bounds of a dimension multiply to its run-time size, and the resolved layout is one-to-one on the run-time box *)
+TestOpEvents(log) == {k \in DOMAIN log : log[k].k = "op" /\ log[k].n = "test.op"}
+NLevels(L) == LET RECURSIVE F(_) F(d) == IF d > Len(L.dims) THEN 0 ELSE Len(L.dims[d]) + F(d + 1) IN F(1)
+LevelPos(L, d, j) == LET RECURSIVE F(_) F(x) == IF x >= d THEN 0 ELSE Len(L.dims[x]) + F(x + 1) IN F(1) + j
+TslOps(c, orc, a, b) ==
+  IF b.fault # "none" THEN "B.fault:" \o b.fault
+  ELSE IF Cardinality(TestOpEvents(b.log)) # 1 THEN "NoObservation"
+  ELSE LET e == b.log[CHOOSE k \in TestOpEvents(b.log) : TRUE]  d1 == orc.desc[1] IN
+    IF c.what = "subviewptr" THEN
+      LET offs == [d \in DOMAIN c.offspec |-> IF c.offspec[d].arg > 0 THEN orc.args[c.offspec[d].arg] ELSE c.offspec[d].const] IN
+      IF e.vals[1] = d1.base + Addr0(c.L, offs) * c.w THEN "ok" ELSE "SubviewPointer"
+    ELSE
+      LET n == NLevels(c.L)
+          Lr == [dims |-> [d \in DOMAIN c.L.dims |-> [j \in DOMAIN c.L.dims[d] |->
+                     [b |-> e.vals[LevelPos(c.L, d, j)], s |-> e.vals[n + LevelPos(c.L, d, j)]]]], off |-> 0]
+      IN
+      IF Len(e.vals) # 2 * n THEN "OneBoundAndStepPerLevel"
+      ELSE IF \E d \in DOMAIN c.L.dims : \E j \in DOMAIN c.L.dims[d] : c.L.dims[d][j].b # -1 /\ Lr.dims[d][j].b # c.L.dims[d][j].b THEN "StaticBoundKept"
+      ELSE IF \E d \in DOMAIN c.L.dims : \E j \in DOMAIN c.L.dims[d] : c.L.dims[d][j].s # -1 /\ Lr.dims[d][j].s # c.L.dims[d][j].s * c.w THEN "StaticStepKept"
+      ELSE IF \E d \in DOMAIN c.L.dims : ProdFrom(Lr.dims[d], 1) # d1.sizes[d] THEN "BoundsCoverRuntimeShape"
+      ELSE IF c.inj = 1 /\ ~Injective(Lr) THEN "ResolvedLayoutOneToOne"
+      ELSE "ok"
+
 Judge(contract, c, orc, a, b) ==
   IF a.fault # "none" THEN "skipA:" \o a.fault
   ELSE CASE contract \in {"dedup", "overlap", "trace"} -> AccfgObs(a, b)
@@ -259,5 +286,6 @@ Judge(contract, c, orc, a, b) ==
          [] contract = "allocsize" -> AllocSize(c, orc, a, b)
          [] contract = "placement" -> Placement(c, orc, a, b)
          [] contract = "casts" -> Casts(c, orc, a, b)
+         [] contract = "tslops" -> TslOps(c, orc, a, b)
          [] OTHER -> "machinery:unknown-contract"
 =============================================================================
